@@ -35,7 +35,7 @@ theorem absent_bucket_is_NoSuchBucket (md5 : Bytes → Bytes) (m : Mem) (b : Byt
     m.get b k = .err .NoSuchBucket ∧ m.head b k = .err .NoSuchBucket ∧
     m.put md5 b k md body = (m, .err .NoSuchBucket) ∧ m.delete b k = (m, .err .NoSuchBucket) ∧
     m.deleteBucket b = (m, .err .NoSuchBucket) ∧ (∀ ks, m.deleteMulti b ks = (m, .err .NoSuchBucket)) := by
-  simp [Mem.get, Mem.head, Mem.current, Mem.put, Mem.delete, Mem.deleteBucket, Mem.deleteMulti, h]
+  simp [Mem.get, Mem.head, Mem.current, Mem.put, Mem.putCommit, Mem.delete, Mem.deleteBucket, Mem.deleteMulti, h]
 
 /-- deleting a non-empty bucket answers BucketNotEmpty and changes nothing; an empty one goes -/
 theorem delete_bucket_cases (m : Mem) (b : Bytes) (bk : Bucket) (h : SMap.find m.buckets b = some bk) :
@@ -52,7 +52,7 @@ theorem delete_bucket_cases (m : Mem) (b : Bytes) (bk : Bucket) (h : SMap.find m
 theorem read_your_write (md5 : Bytes → Bytes) (m : Mem) (b : Bytes) (k : Key) (md : Meta) (body : Bytes)
     (bk : Bucket) (h : SMap.find m.buckets b = some bk) :
     ∃ v, (m.put md5 b k md body).1.get b k = .ok v ∧ v.body = body ∧ v.hash = md5 body ∧ v.marker = false := by
-  simp only [Mem.put, h]
+  simp only [Mem.put, Mem.putCommit, h]
   simp only [Mem.get, Mem.current, SMap.find_insert_self, Bucket.put]
   simp
 
@@ -60,7 +60,7 @@ theorem read_your_write (md5 : Bytes → Bytes) (m : Mem) (b : Bytes) (k : Key) 
 theorem put_frame (md5 : Bytes → Bytes) (m : Mem) (b b' : Bytes) (k k' : Key) (md : Meta) (body : Bytes)
     (hne : b ≠ b' ∨ k ≠ k') :
     (m.put md5 b k md body).1.get b' k' = m.get b' k' := by
-  unfold Mem.put
+  unfold Mem.put Mem.putCommit
   cases hb : SMap.find m.buckets b with
   | none => rfl
   | some bk =>
